@@ -303,6 +303,16 @@ public:
         return state_;
     }
 
+#if defined(JSONCONS_VERIF)
+    // verification hook (read-only): the suspended state between two calls of parse_some
+    template <typename F>
+    void verif_inspect(F&& f) const
+    {
+        f(static_cast<int>(state_), static_cast<int>(number_state_), static_cast<int>(string_state_), level_,
+          state_stack_, buffer_, cp_, cp2_, escape_tag_ == semantic_tag::noesc);
+    }
+#endif
+
     bool finished() const
     {
         return !more_ && state_ != parse_state::accept;
